@@ -70,6 +70,7 @@ type w1Cfg struct {
 	DupPm           int  `json:"pubsub_dup_pm"`
 	DelayPm         int  `json:"pubsub_delay_pm"`
 	ExpiredDelayMs  int  `json:"expired_close_delay_ms"`
+	ChannelMaxLen   int  `json:"channel_max_length"`
 	HistoryMax      int  `json:"history_max_publication_limit"`
 	RecoveryMax     int  `json:"recovery_max_publication_limit"`
 	SubFailPm       int  `json:"broker_subscribe_fail_pm"`
@@ -192,6 +193,7 @@ type w1SimClient struct {
 	observer bool
 	onConnectRan bool
 	acceptedAt   time.Duration
+	stalledAtSeq int64
 	instances    []*w1Instance
 }
 
@@ -235,6 +237,7 @@ type w1Transport struct {
 	proto  ProtocolType
 	closed bool
 	failWrites bool
+	stalled    bool
 	ping   PingPongConfig
 }
 
@@ -251,6 +254,13 @@ func (t *w1Transport) Write(data []byte) error { return t.WriteMany(data) }
 
 func (t *w1Transport) WriteMany(datas ...[]byte) error {
 	if t.closed || t.failWrites {
+		return io.ErrClosedPipe
+	}
+	for i := 0; t.stalled && !t.closed && i < 300; i++ {
+		// a peer that stopped reading: the write does not complete
+		t.w.s.Sleep(100 * time.Millisecond)
+	}
+	if t.closed {
 		return io.ErrClosedPipe
 	}
 	for _, data := range datas {
@@ -561,6 +571,17 @@ func (cl *w1SimClient) runOp(op w1Op) bool {
 			_ = cl.closeFn()
 		}
 		return false
+	case "stall":
+		cl.tr.stalled = true
+		cl.stalledAtSeq = cl.w.next()
+		cl.w.s.Fault("transport_stall")
+		return true
+	case "unstall":
+		cl.tr.stalled = false
+		return true
+	case "sublong":
+		name := op.Ch + strings.Repeat("x", op.N)
+		return cl.send(&protocol.Command{Id: cl.id(), Subscribe: &protocol.SubscribeRequest{Channel: name, Token: "0:false"}}, "subscribe", name)
 	case "failwrites":
 		cl.tr.failWrites = true
 		cl.w.s.Fault("transport_write_error")
@@ -619,6 +640,7 @@ func (w *w1World) setup() error {
 		ClientChannelPositionCheckDelay:  time.Duration(cfg.PositionCheckMs) * time.Millisecond,
 		ClientQueueMaxSize:               cfg.QueueMax,
 		HistoryMaxPublicationLimit:       cfg.HistoryMax,
+		ChannelMaxLength:                 cfg.ChannelMaxLen,
 		ClientExpiredCloseDelay:          time.Duration(cfg.ExpiredDelayMs) * time.Millisecond,
 		RecoveryMaxPublicationLimit:      cfg.RecoveryMax,
 		Metrics:                          MetricsConfig{RegistererGatherer: w.reg},
@@ -1105,6 +1127,8 @@ func w1Gen(c *simrt.Choice, prop, tier string) any {
 	}
 	if prop == "C37" {
 		cfg.ChannelLimit = 1 + c.Intn(3)
+		cfg.ChannelMaxLen = 12
+		cfg.QueueMax = []int{0, 200, 600}[c.Intn(3)]
 	}
 	if prop == "C36" {
 		cfg.PingMs = []int{1000, 2000}[c.Intn(2)]
@@ -1127,6 +1151,9 @@ func w1Gen(c *simrt.Choice, prop, tier string) any {
 		fl = []string{"_", "p_", "ejJ_", "r_"}
 	}
 	nch := 1 + c.Intn(3)
+	if prop == "C37" {
+		nch = 3 + c.Intn(3)
+	}
 	for i := 0; i < nch; i++ {
 		sc.Channels = append(sc.Channels, fl[c.Intn(len(fl))]+strconv.Itoa(i))
 	}
@@ -1182,6 +1209,9 @@ func w1Gen(c *simrt.Choice, prop, tier string) any {
 			if prop == "C43" {
 				weights = []int{4, 1, 1, 0, 10, 6, 0, 0, 0, 0}
 			}
+			if prop == "C37" {
+				weights = []int{12, 3, 2, 0, 0, 0, 0, 0, 2, 0}
+			}
 			switch c.Pick(weights...) {
 			case 0:
 				op = w1Op{K: "sub", Ch: pickCh(), Recover: c.Intn(2) == 0}
@@ -1208,6 +1238,12 @@ func w1Gen(c *simrt.Choice, prop, tier string) any {
 			case 8:
 				if prop == "C09" {
 					op = w1Op{K: []string{"pong", "noid", "empty", "connect"}[c.Intn(4)], Ch: pickCh()}
+				} else if prop == "C37" {
+					if c.Intn(2) == 0 {
+						op = w1Op{K: "sublong", Ch: "_l", N: []int{10, 11, 30}[c.Intn(3)]}
+					} else {
+						op = w1Op{K: "stall"}
+					}
 				} else {
 					op = w1Op{K: "sleep", DelayUs: 10}
 				}
@@ -1222,6 +1258,9 @@ func w1Gen(c *simrt.Choice, prop, tier string) any {
 		sc.Clients = append(sc.Clients, cl)
 	}
 	npub := 1 + c.Intn(2)
+	if prop == "C37" {
+		maxOps = 40
+	}
 	for i := 0; i < npub; i++ {
 		var ops []w1Op
 		k := 1 + c.Intn(maxOps)
@@ -1369,7 +1408,7 @@ func init() {
 			return r.Probes["nontrivial:"+prop] > 0
 		},
 	})
-	for _, p := range []string{"C04", "C05", "C10", "C01", "C06", "C07", "C08", "C09", "C11", "C26", "C43", "C36"} {
+	for _, p := range []string{"C04", "C05", "C10", "C01", "C06", "C07", "C08", "C09", "C11", "C26", "C43", "C36", "C37"} {
 		simrt.Claim(p, "w1", 10)
 	}
 }
